@@ -198,8 +198,8 @@ msg_save_start_end(const void *msg, const size_t bit_offset, const size_t bit_le
 
         *save_start = *msg_ptr & mtab_shl[bit_offset];
 
-        /* 0xff >> i */
-        static const uint8_t mtab_shr[8] = { 0xff, 0x7f, 0x3f, 0x1f, 0x0f, 0x07, 0x03, 0x01 };
+        /* 0xff >> i, nothing to save when the message ends on a byte boundary */
+        static const uint8_t mtab_shr[8] = { 0x00, 0x7f, 0x3f, 0x1f, 0x0f, 0x07, 0x03, 0x01 };
         const size_t blast = bit_offset + bit_length;
         const size_t bend = blast & 7; /* non-inclusive */
 
